@@ -31,6 +31,11 @@ impl LoopKind {
             LoopKind::EdgeLoop(1) => "iter_in".into(),
             LoopKind::EdgeLoop(3) => "edge-iterator+size_hint".into(),
             LoopKind::EdgeLoop(4) => "iter_in+size_hint".into(),
+            LoopKind::EdgeLoop(w @ 10..=39) => format!(
+                "{}.{}",
+                match w / 10 { 1 => "edge-iterator", 2 => "iter_in", _ => "(&node).into_iter()" },
+                ["for_each", "fold", "map().sum()", "inspect().count()", "inspect().last()", "all()", "inspect().collect()", "nth(0) loop", "zip() loop", "inspect().max_by_key()"][(*w % 10) as usize]
+            ),
             LoopKind::EdgeLoop(_) => "for-in-node".into(),
             LoopKind::Traversal(c) => format!("{}{}{}", c.kind.name(), if c.transpose { ".transpose" } else { "" }, if c.meth == Meth::Filter { "+filter" } else { "+for_each" }),
         }
@@ -144,6 +149,14 @@ pub fn loop_kinds(directed: bool, n: usize, root: K) -> Vec<LoopKind> {
         v.push(LoopKind::EdgeLoop(1));
         v.push(LoopKind::EdgeLoop(4));
     }
+    // internal iteration through the iterator's adaptor methods
+    for w in 0..10u8 {
+        v.push(LoopKind::EdgeLoop(10 + w));
+        if directed {
+            v.push(LoopKind::EdgeLoop(20 + w));
+        }
+        v.push(LoopKind::EdgeLoop(30 + w));
+    }
     let mut targets: Vec<Option<K>> = vec![None];
     targets.extend((0..n as K).filter(|t| *t != root).map(Some));
     for kind in ALL_KINDS {
@@ -230,7 +243,7 @@ pub fn run_case<F: Fl>(c: &LCase) -> Result<LRun, (String, String)> {
         let exists = if transposed {
             // stored kb -> ka, reported reversed
             F::edges_out(&w.nodes[kb as usize]).iter().any(|y| F::edge_accessors(y) == (kb, ka, x))
-        } else if matches!(c.lk, LoopKind::EdgeLoop(1) | LoopKind::EdgeLoop(4)) {
+        } else if matches!(c.lk, LoopKind::EdgeLoop(1) | LoopKind::EdgeLoop(4) | LoopKind::EdgeLoop(20..=29)) {
             F::edges_in(&w.nodes[kb as usize]).iter().any(|y| F::edge_accessors(y) == (ka, kb, x))
         } else {
             F::edges_out(&w.nodes[ka as usize]).iter().any(|y| F::edge_accessors(y) == (ka, kb, x))
@@ -370,7 +383,7 @@ pub fn run_owned<F: Fl>(c: &OCase) -> Result<usize, (String, String)> {
         let (ka, kb) = (F::key(&a), F::key(&b));
         let exists = if transposed {
             F::edges_out(&b).iter().any(|y| F::edge_accessors(y) == (kb, ka, x))
-        } else if matches!(c.lk, LoopKind::EdgeLoop(1) | LoopKind::EdgeLoop(4)) {
+        } else if matches!(c.lk, LoopKind::EdgeLoop(1) | LoopKind::EdgeLoop(4) | LoopKind::EdgeLoop(20..=29)) {
             F::edges_in(&b).iter().any(|y| F::edge_accessors(y) == (ka, kb, x))
         } else {
             F::edges_out(&a).iter().any(|y| F::edge_accessors(y) == (ka, kb, x))
